@@ -150,6 +150,136 @@ func runC01(c *Check) {
 	c.internSymmetry(encTargets)
 	c.scratchProducers()
 	c.wireConstants()
+	c.scratchReset()
+	c.unitPadding("C01-R6")
+}
+
+// scratchReset (R2b): a scratch slice that preEncode rebuilds with append must be reset
+// first, otherwise a second serialization of the same profile repeats its contents.
+func (c *Check) scratchReset() {
+	p := c.P
+	pre := c.anchorFn("C01-R2", "profile", "(*Profile).preEncode")
+	if pre == nil {
+		return
+	}
+	n := 0
+	for _, b := range pre.Blocks {
+		for _, ins := range b.Instrs {
+			st, ok := ins.(*ssa.Store)
+			if !ok {
+				continue
+			}
+			fa, ok := st.Addr.(*ssa.FieldAddr)
+			if !ok {
+				continue
+			}
+			call, ok := st.Val.(*ssa.Call)
+			if !ok {
+				continue
+			}
+			bi, ok := call.Call.Value.(*ssa.Builtin)
+			if !ok || bi.Name() != "append" || !isLoadOfField(call.Call.Args[0], fa.X, fa.Field) {
+				continue
+			}
+			T, F := fieldOf(fa.X.Type(), fa.Field)
+			n++
+			key := "reset:" + T + "." + F
+			// a store of nil / a fresh slice into the same field of the same object dominates
+			ok2 := false
+			for _, b2 := range pre.Blocks {
+				for _, i2 := range b2.Instrs {
+					st2, isSt := i2.(*ssa.Store)
+					if !isSt || st2 == st {
+						continue
+					}
+					fa2, isFA := st2.Addr.(*ssa.FieldAddr)
+					if !isFA || fa2.Field != fa.Field || !sameNode(fa2.X, fa.X) && fa2.X != fa.X {
+						continue
+					}
+					fresh := false
+					switch v := st2.Val.(type) {
+					case *ssa.Const:
+						fresh = v.IsNil()
+					case *ssa.MakeSlice:
+						fresh = true
+					}
+					if fresh && instrDominates(st2, st) {
+						ok2 = true
+					}
+				}
+			}
+			if ok2 {
+				c.ok("C01-R2", key, p.relFile(st.Pos()), T+"."+F+" is rebuilt from scratch on every serialization", "a reset (nil or make) of the field dominates the appending loop in preEncode")
+			} else {
+				c.bad("C01-R2", key, p.relFile(st.Pos()), T+"."+F+" is extended with append in preEncode without being reset first: serializing the same profile twice writes its contents twice, so Write/Copy are not idempotent and the bytes differ")
+			}
+		}
+	}
+	if n < 2 {
+		c.undecided("C01-R2", "reset:count", p.relFile(pre.Pos()), "fewer append-built scratch fields than expected in preEncode")
+	}
+}
+
+// unitPadding (R6): before postDecode publishes a sample's NumUnit map, every unit list is
+// padded to the number of values of its key.
+func (c *Check) unitPadding(rule string) {
+	p := c.P
+	post := c.anchorFn(rule, "profile", "(*Profile).postDecode")
+	if post == nil {
+		return
+	}
+	var publish *ssa.Store
+	for _, b := range post.Blocks {
+		for _, ins := range b.Instrs {
+			if st, ok := ins.(*ssa.Store); ok {
+				if fa, ok := st.Addr.(*ssa.FieldAddr); ok {
+					if T, F := fieldOf(fa.X.Type(), fa.Field); T == "profile.Sample" && F == "NumUnit" {
+						publish = st
+					}
+				}
+			}
+		}
+	}
+	if publish == nil {
+		c.undecided(rule, "padding", p.relFile(post.Pos()), "postDecode does not assign Sample.NumUnit")
+		return
+	}
+	units := publish.Val
+	found := false
+	for _, b := range post.Blocks {
+		for _, ins := range b.Instrs {
+			mu, ok := ins.(*ssa.MapUpdate)
+			if !ok || mu.Map != units {
+				continue
+			}
+			call, ok := mu.Value.(*ssa.Call)
+			if !ok || call.Call.StaticCallee() == nil || call.Call.StaticCallee().Name() != "padStringArray" {
+				continue
+			}
+			// second argument: len(numLabels[key]) with the same key, inside a range over the units map
+			lx := lenArg(call.Call.Args[1])
+			lk, isLk := lx.(*ssa.Lookup)
+			if lx == nil || !isLk || lk.Index != mu.Key {
+				continue
+			}
+			inRange := false
+			if ex, ok := mu.Key.(*ssa.Extract); ok {
+				if nx, ok := ex.Tuple.(*ssa.Next); ok {
+					if rg, ok := nx.Iter.(*ssa.Range); ok && rg.X == units {
+						inRange = true
+					}
+				}
+			}
+			if inRange && blockReachesPlain(b, publish.Block()) {
+				found = true
+			}
+		}
+	}
+	if found {
+		c.ok(rule, "padding", p.relFile(publish.Pos()), "unit lists are padded to the value count before NumUnit is published", "a range over the unit map stores padStringArray(units, len(numLabels[key])) under each key on the way to the assignment of Sample.NumUnit")
+	} else {
+		c.bad(rule, "padding", p.relFile(publish.Pos()), "postDecode publishes Sample.NumUnit without padding every unit list to len(NumLabel[key]): a key whose last values carry no unit keeps a short list, and re-serializing the parsed profile indexes past its end")
+	}
 }
 
 func methodOf(p *Program, t *types.Named, name string) *ssa.Function {
